@@ -597,7 +597,7 @@ def run_chunk(spec):
     observe.quiet_logs()
     res = Result()
     tier, ci = spec["tier"], spec["chunk"]
-    wd = Watchdog(res, 120.0)
+    wd = Watchdog(res, 400.0)
     signal.signal(signal.SIGALRM, _alarm)
     n = 30 if tier == "quick" else 500
     ncorr = 6 if tier == "quick" else 25
